@@ -138,6 +138,31 @@ type lCase struct {
 	// listing is created, -1: never); Deadline: past its deadline rather than cancelled
 	Cut      int  `json:"cut"`
 	Deadline bool `json:"deadline,omitempty"`
+	// Raw (tags only): the tag names are served by an overlay on the in-memory registry and may
+	// contain bytes ocimem would refuse (URL metacharacters): "any registry contents" includes
+	// what a foreign backend lists.
+	Raw bool `json:"raw,omitempty"`
+}
+
+// lRawTags lists the tags of one repository from a fixed sorted slice; everything else is
+// the registry underneath.
+type lRawTags struct {
+	ociregistry.Interface
+	repo  string
+	names []string // ascending
+}
+
+func (r *lRawTags) Tags(ctx context.Context, repo string, startAfter string) ociregistry.Seq[string] {
+	if repo != r.repo {
+		return r.Interface.Tags(ctx, repo, startAfter)
+	}
+	return func(yield func(string, error) bool) {
+		for _, s := range r.names {
+			if s > startAfter && !yield(s, nil) {
+				return
+			}
+		}
+	}
 }
 
 const (
@@ -343,6 +368,16 @@ func (st *lStack) build(c *lCase, n *lNode, univ []string, prefix string, refs [
 			return nil, err
 		}
 		m := st.env.mems[len(st.env.mems)-1]
+		if c.Raw && c.Kind == "tags" && !n.Absent {
+			bare := *n
+			bare.S = nil
+			names := []string{}
+			for _, e := range n.S {
+				names = append(names, univ[e-1])
+			}
+			sort.Strings(names)
+			return &lRawTags{Interface: r, repo: prefix + lRepo, names: names}, lPopulate(m, c.Kind, &bare, univ, prefix, refs)
+		}
 		return r, lPopulate(m, c.Kind, n, univ, prefix, refs)
 	case "http":
 		x, err := st.build(c, n.X, univ, prefix, refs)
@@ -512,7 +547,7 @@ type lRunner struct {
 }
 
 func (lr *lRunner) stackFor(c *lCase) (*lStack, error) {
-	kb, _ := json.Marshal([]any{c.Kind, c.Node, c.Univ})
+	kb, _ := json.Marshal([]any{c.Kind, c.Node, c.Univ, c.Raw})
 	key := string(kb)
 	if lr.cached != nil && lr.key == key {
 		return lr.cached, nil
@@ -993,8 +1028,15 @@ func randCase(rnd *rand.Rand, maxU int) *lCase {
 		_, c.Univ = lReferrers(n)
 	default:
 		seen := map[string]bool{}
+		c.Raw = c.Kind == "tags" && rnd.Intn(4) == 0
 		for len(c.Univ) < n {
 			s := lRandName(rnd, c.Kind == "tags")
+			if c.Raw && rnd.Intn(2) == 0 {
+				// bytes with a meaning in URLs, query strings and Link headers
+				const meta = "+&%= #?;,<>\"/"
+				i := rnd.Intn(len(s) + 1)
+				s = s[:i] + string(meta[rnd.Intn(len(meta))]) + s[i:]
+			}
 			if withSub {
 				// names around the prefix: inside it, equal to it, sharing it as a string
 				switch rnd.Intn(6) {
@@ -1244,7 +1286,7 @@ func listCmd(args []string) error {
 			// the same stack listed from several start points / stop points
 			if j > 0 {
 				top := c.topUniv()
-				c = &lCase{Src: c.Src, Kind: c.Kind, Node: c.Node, Univ: c.Univ, Start: c.Start, K: rnd.Intn(len(top) + 3), Cut: -1}
+				c = &lCase{Src: c.Src, Kind: c.Kind, Node: c.Node, Univ: c.Univ, Start: c.Start, Raw: c.Raw, K: rnd.Intn(len(top) + 3), Cut: -1}
 				if c.Kind != "refs" && len(top) > 0 && rnd.Intn(2) == 0 {
 					c.Start = top[rnd.Intn(len(top))]
 					if rnd.Intn(2) == 0 {
